@@ -160,7 +160,7 @@ pub fn run(cfg: &Cfg) -> i32 {
         names.push("wide-eval".into());
         jobs.push(Box::new(move |w: &mut dyn Write| {
             let mut rep = Report::default();
-            crate::c02w::wide_val::<TddK>("C11", seed, cases, &mut rep);
+            chunked(seed, cases, 500, &mut rep, |s, n, r| crate::c02w::wide_val::<TddK>("C11", s, n, r));
             rep.emit(w);
         }));
     }
